@@ -319,7 +319,7 @@ const (
 var rFaultNames = []string{"drop_record", "drop_terminator", "drop_event_gap", "duplicate_record", "reorder", "delay_past_eviction",
 	"sequence_restart", "nil_message", "unparsable_push", "interleaved_events", "uint32_rollover_window", "boundary_sleep", "event_with_63_to_300_records"}
 
-const nBadRaw = 14 // variants of unparsable raw records (reasm_seq.go)
+const nBadRaw = 15 // variants of unparsable raw records (reasm_seq.go)
 
 var timeoutClasses = []int64{-1e9, 0, 1e6, 50e6, 2e9, 3600e9, math.MaxInt64}
 
